@@ -73,7 +73,7 @@ META = {
                   "indentation-based layout parser of this module (cross-checked against pygen.line_map on every case).",
 }
 PLAN = {
-    "quick": {"shards": 16, "examples": 320, "max_stmts": 12, "max_funcs": 2},
+    "quick": {"shards": 16, "examples": 256, "max_stmts": 12, "max_funcs": 2, "timeout": 2400, "shrink_sigs": 2, "shrink_seconds": 30},
     "thorough": {"shards": 16, "examples": 24000, "timeout": 3000, "max_stmts": 22, "max_funcs": 3},
 }
 FEATURES = set(pygen.FEATURES) - {"strtuple"}
